@@ -85,6 +85,7 @@ class Query:
         self.extra_cbmc = list(extra_cbmc or [])
         self.group = group or harness
         self.native_srcs = native_srcs
+        self.unwind_big = None
 
 
 class Builder:
@@ -239,6 +240,31 @@ class Runner:
 
     # ---- engines
     def run_sat(self, q, gb, want_trace=False):
+        """bit-precise run; loops whose unwinding assertion fails get their bound raised to
+        q.unwind_big (only those loops: a large global bound explodes the value-dependent loops)
+        and the query is repeated, at most 6 times.  A loop that still exceeds unwind_big is
+        reported as a failed unwinding assertion (possible non-termination)."""
+        big = getattr(q, 'unwind_big', None) or (4 * q.unwind + 8)
+        for rnd in range(7):
+            r = self.run_sat_once(q, gb, want_trace)
+            if r['status'] != 'fail':
+                break
+            uw = [k for k in r['fails'] if '.unwind.' in k]
+            if not uw:
+                break
+            grew = False
+            for k in uw:
+                m = re.match(r'(.*)\.unwind\.(\d+)$', k)
+                key = '%s.%s' % (m.group(1), m.group(2))
+                if q.unwindset.get(key, 0) < big:
+                    q.unwindset[key] = big
+                    grew = True
+            if not grew:
+                break
+        r['unwindset'] = dict(q.unwindset)
+        return r
+
+    def run_sat_once(self, q, gb, want_trace=False):
         cmd = ['cbmc', gb] + CBMC_SAT_FLAGS + self.unwind_args(q) + q.extra_cbmc + ['--json-ui']
         if q.solver == 'cadical':
             cmd += ['--sat-solver', 'cadical']
@@ -253,7 +279,10 @@ class Runner:
         props, traces, st = parse_cbmc_json(o)
         if props is None or (not props and st != 'success'):
             return {'status': 'inconclusive', 'why': 'cbmc: %s %s' % (st, (e or '')[-300:]), 'time': dt}
-        fails = {k: v for k, v in props.items() if v[0] != 'SUCCESS'}
+        fails = {k: v for k, v in props.items() if v[0] == 'FAILURE'}
+        unknown = {k: v for k, v in props.items() if v[0] not in ('SUCCESS', 'FAILURE')}
+        if not fails and unknown:
+            return {'status': 'inconclusive', 'why': 'cbmc left %d properties undecided (%s)' % (len(unknown), list(unknown.values())[0][0]), 'time': dt}
         return {'status': 'pass' if not fails else 'fail', 'nprops': len(props), 'fails': fails,
                 'traces': traces, 'time': dt}
 
